@@ -74,6 +74,19 @@ func (RxEngine) Generate(prop string, r *kit.Rand, tier string) *kit.Scenario[Rx
 	if r.Chance(0.06) {
 		// a stream shaped to fill the 32-packet receive buffer exactly, with a maximal (or oversize) block straddling its end
 		c.Stream, c.Reads = true, []int{kit.Pick(r, []int{1 << 20, 281600, 140800, 8800})}
+		if r.Chance(0.4) {
+			// ... or one whose type and length are written in the nine-byte form around a value of the maximum size
+			// (8818 bytes in all), placed so that a read which fills the buffer ends 8801..8817 bytes into it: a
+			// left-over that is longer than any packet and still an incomplete block
+			k := r.Range(8801, 8817)
+			for i := 0; i < 30; i++ {
+				sc.Ops = append(sc.Ops, RxOp{Base: "big", Seed: 8800})
+			}
+			sc.Ops = append(sc.Ops, RxOp{Base: "big", Seed: 17600 - k}, RxOp{Base: "biglong", Seed: 8800})
+			sc.Ops = append(sc.Ops, RxOp{Base: "interest", Seed: r.Intn(1 << 16)}, RxOp{Base: "data", Seed: r.Intn(1 << 16)})
+			c.Reads = []int{1 << 20}
+			return sc
+		}
 		for i := 0; i < 31; i++ {
 			sc.Ops = append(sc.Ops, RxOp{Base: "big", Seed: 8800})
 		}
@@ -474,6 +487,13 @@ func (w *rxWorld) buildFrame(o *RxOp) []byte {
 			tlv(0x64, tlv(0x50, nil)), // LpPacket with an empty fragment
 		}
 		f = cases[o.Seed%len(cases)]
+	case "biglong":
+		// an opaque TLV block with a value of o.Seed bytes, type and length in the nine-byte form
+		l := o.Seed
+		f = append([]byte{0xff, 0, 0, 0, 0, 0, 0, 0, 0x06, 0xff, 0, 0, 0, 0, 0, 0, byte(l >> 8), byte(l)}, make([]byte, l)...)
+		for i := 18; i < len(f); i++ {
+			f[i] = byte(i * 7)
+		}
 	case "big":
 		// an opaque TLV block of o.Seed bytes in total (3-byte length form); not a valid packet
 		l := o.Seed - 4
